@@ -106,7 +106,17 @@ def race_stage(ctx, n):
         fails.append({"failure": "race harness did not finish (rc=%s)" % rc, "log": out[-1500:], "kind": "crash"})
     if races:
         open(os.path.join(rdir, "race_report.txt"), "w").write(out)
-        fails.append({"failure": "Go race detector reported %d data race(s)" % races, "log": out[:6000], "kind": "race"})
+        first = out.index("WARNING: DATA RACE")
+        cfg = {}
+        mk = out.rfind("@@C17CFG ", 0, first)
+        if mk >= 0:
+            try:
+                cfg = json.loads(out[mk + 9: out.index("\n", mk)])
+            except ValueError:
+                cfg = {}
+        report = out[first: first + 5000]
+        fails.append({"failure": "Go race detector reported %d data race(s)" % races, "log": report, "kind": "race",
+                      "config": cfg.get("config"), "pool": cfg.get("pool"), "gomaxprocs": cfg.get("gomaxprocs")})
     ctx.cov["race"] = {"label": "supporting evidence (sampled runtime behaviour, not a proof)", "built": True,
                        "configurations": summary.get("runs", 0), "histogram": summary.get("histogram", {}),
                        "data_races_reported": races, "oracle_failures": len(summary.get("failures", [])),
@@ -160,7 +170,7 @@ def run(ctx):
         return
     quick = ctx.tier == "quick"
     bad, broken = corr(ctx, binary, 60 if quick else 500, os.path.join(vlib.ROOT, "corpus/C17/corpus.jsonl"))
-    rfails = race_stage(ctx, 400 if quick else 4000)
+    rfails = race_stage(ctx, 1500 if quick else 15000)
     # the hunt: property-level oracle on the implementation over many schedules
     h = None
     if bad or rfails or not ok:
@@ -172,7 +182,7 @@ def run(ctx):
                               "normal": c.get("normal"), "x": c.get("x")})
         h = hunt(ctx, binary, seeds, 300 if quick else 3000)
     else:
-        h = hunt(ctx, binary, [], 60 if quick else 1500)
+        h = hunt(ctx, binary, [], 150 if quick else 1500)
     if h:
         kf = is_known(h)
         if kf:
@@ -197,7 +207,9 @@ def run(ctx):
                           (b.get("pool") or {}).get("k"), SITE_OF.get(b.get("site"), b.get("site"))))
     for f in rfails:
         if f["kind"] == "race":
-            ctx.violation({"obligation": "race detector run", "report": f["log"]}, False, f["failure"])
+            ctx.violation({"obligation": "race detector run", "race": True, "report": f["log"], "config": f.get("config"),
+                           "pool": f.get("pool"), "gomaxprocs": f.get("gomaxprocs")}, bool(f.get("config")),
+                          f["failure"] + " (write-set disjointness violated at run time)")
         elif f["kind"] == "oracle":
             ctx.violation({"config": f.get("config"), "pool": f.get("pool"), "gomaxprocs": f.get("gomaxprocs"), "failure": f["failure"]},
                           True, "under -race / deadline: " + f["failure"][:300])
@@ -215,6 +227,19 @@ def replay(ctx, path):
         print("replay names a broken obligation, not an input: %s" % rp.get("obligation"))
         ok, failures = vlib.proof_stage(ctx, TARGETS, PROPS)
         return 0 if ok else 1
+    raced = False
+    if rp.get("race"):
+        rbin, rlog = vlib.build_harness("c17", race=True)
+        if rbin is None:
+            print(rlog)
+            return 2
+        env = vlib.go_env()
+        env["GORACE"] = "halt_on_error=0 exitcode=66 history_size=2"
+        rdir = os.path.join(ctx.dir, "race")
+        os.makedirs(rdir, exist_ok=True)
+        rc, out = vlib.sh([rbin, "--replay", path, "--out", rdir, "--seed", str(ctx.seed)], env=env, timeout=900)
+        raced = "WARNING: DATA RACE" in out
+        print("race detector on the replayed configuration (200 schedules): %s" % ("DATA RACE reported" if raced else "no report"))
     rc, out = vlib.sh([binary, "--replay", path, "--out", ctx.dir, "--seed", str(ctx.seed)], env=vlib.go_env(), timeout=900)
     if rc != 0:
         print(out[-2000:])
@@ -224,4 +249,4 @@ def replay(ctx, path):
     agree = all(r["ok"] for r in rc_ + rt_)
     print("model recomputation agrees with the implementation on this configuration: %s" % agree)
     print("parallel vs sequential oracle over 200 schedules: %s" % (h["failure"] if h.get("found") else "holds"))
-    return 1 if (h.get("found") or not agree) else 0
+    return 1 if (h.get("found") or not agree or raced) else 0
